@@ -1,16 +1,19 @@
 //! Finite-map shim standing in for std::collections::HashMap in the L3 units (assumption: std HashMap
-//! behaves as a finite map).  Capacity is a harness bound: inserting a 5th distinct key is rejected by
-//! an assertion that is reported as a *bound*, not as a property failure.
-pub const CAP: usize = 4;
+//! behaves as a finite map).  Two explicit slots (no arrays of non-Copy values: CBMC mis-tracks ownership of
+//! `[Option<Vec<_>>; N]` elements written at a computed index, which showed up as spurious double frees).
+//! Capacity 2 is a harness bound: inserting a third distinct key is outside the explored space.
+pub const CAP: usize = 2;
 
 pub struct HashMap<K, V> {
-    keys: [Option<K>; CAP],
-    vals: [Option<V>; CAP],
+    k0: Option<K>,
+    v0: Option<V>,
+    k1: Option<K>,
+    v1: Option<V>,
 }
 
 impl<K: Copy + PartialEq, V: Clone> Clone for HashMap<K, V> {
     fn clone(&self) -> Self {
-        HashMap { keys: self.keys, vals: [self.vals[0].clone(), self.vals[1].clone(), self.vals[2].clone(), self.vals[3].clone()] }
+        HashMap { k0: self.k0, v0: self.v0.clone(), k1: self.k1, v1: self.v1.clone() }
     }
 }
 impl<K: Copy + PartialEq, V> Default for HashMap<K, V> {
@@ -20,13 +23,7 @@ impl<K: Copy + PartialEq, V> Default for HashMap<K, V> {
 }
 impl<K: Copy + PartialEq, V: PartialEq> PartialEq for HashMap<K, V> {
     fn eq(&self, o: &Self) -> bool {
-        let mut k = 0;
-        let mut ok = true;
-        while k < CAP {
-            ok = ok && self.keys[k] == o.keys[k] && self.vals[k] == o.vals[k];
-            k += 1;
-        }
-        ok
+        self.k0 == o.k0 && self.v0 == o.v0 && self.k1 == o.k1 && self.v1 == o.v1
     }
 }
 impl<K: Copy + PartialEq, V: Eq> Eq for HashMap<K, V> {}
@@ -38,59 +35,52 @@ impl<K, V> std::fmt::Debug for HashMap<K, V> {
 
 impl<K: Copy + PartialEq, V> HashMap<K, V> {
     pub fn new() -> Self {
-        HashMap { keys: [None, None, None, None], vals: [None, None, None, None] }
+        HashMap { k0: None, v0: None, k1: None, v1: None }
     }
-    fn find(&self, k: &K) -> Option<usize> {
-        let mut i = 0;
-        while i < CAP {
-            if let Some(x) = &self.keys[i] {
-                if *x == *k {
-                    return Some(i);
-                }
-            }
-            i += 1;
+    fn slot(&self, k: &K) -> u8 {
+        // 0 / 1: the slot holding k; 2: first free slot is 0; 3: first free slot is 1; 4: full (outside the bound)
+        if self.k0 == Some(*k) {
+            0
+        } else if self.k1 == Some(*k) {
+            1
+        } else if self.k0.is_none() {
+            2
+        } else if self.k1.is_none() {
+            3
+        } else {
+            4
         }
-        None
-    }
-    fn free(&self) -> usize {
-        let mut i = 0;
-        while i < CAP {
-            if self.keys[i].is_none() {
-                return i;
-            }
-            i += 1;
-        }
-        // harness bound, see module doc
-        kani::assume(false);
-        0
     }
     pub fn len(&self) -> usize {
-        let mut n = 0;
-        let mut i = 0;
-        while i < CAP {
-            if self.keys[i].is_some() {
-                n += 1;
-            }
-            i += 1;
-        }
-        n
+        self.k0.is_some() as usize + self.k1.is_some() as usize
     }
     pub fn get(&self, k: &K) -> Option<&V> {
-        match self.find(k) {
-            Some(i) => self.vals[i].as_ref(),
-            None => None,
+        match self.slot(k) {
+            0 => self.v0.as_ref(),
+            1 => self.v1.as_ref(),
+            _ => None,
         }
     }
     pub fn contains_key(&self, k: &K) -> bool {
-        self.find(k).is_some()
+        self.slot(k) <= 1
     }
     pub fn insert(&mut self, k: K, v: V) -> Option<V> {
-        match self.find(&k) {
-            Some(i) => self.vals[i].replace(v),
-            None => {
-                let i = self.free();
-                self.keys[i] = Some(k);
-                self.vals[i] = Some(v);
+        match self.slot(&k) {
+            0 => self.v0.replace(v),
+            1 => self.v1.replace(v),
+            2 => {
+                self.k0 = Some(k);
+                self.v0 = Some(v);
+                None
+            }
+            3 => {
+                self.k1 = Some(k);
+                self.v1 = Some(v);
+                None
+            }
+            _ => {
+                #[cfg(kani)]
+                kani::assume(false);
                 None
             }
         }
@@ -101,6 +91,9 @@ impl<K: Copy + PartialEq, V> HashMap<K, V> {
     pub fn iter(&self) -> Iter<'_, K, V> {
         Iter { map: self, pos: 0 }
     }
+    pub fn keys(&self) -> Keys<'_, K, V> {
+        Keys { it: self.iter() }
+    }
 }
 
 pub struct Entry<'a, K, V> {
@@ -109,23 +102,31 @@ pub struct Entry<'a, K, V> {
 }
 impl<'a, K: Copy + PartialEq, V> Entry<'a, K, V> {
     pub fn or_insert_with<F: FnOnce() -> V>(self, f: F) -> &'a mut V {
-        let i = match self.map.find(&self.key) {
-            Some(i) => i,
-            None => {
-                let i = self.map.free();
-                self.map.keys[i] = Some(self.key);
-                self.map.vals[i] = Some(f());
-                i
+        match self.map.slot(&self.key) {
+            0 => self.map.v0.as_mut().unwrap(),
+            1 => self.map.v1.as_mut().unwrap(),
+            2 => {
+                self.map.k0 = Some(self.key);
+                self.map.v0 = Some(f());
+                self.map.v0.as_mut().unwrap()
             }
-        };
-        self.map.vals[i].as_mut().unwrap()
+            _ => {
+                #[cfg(kani)]
+                kani::assume(self.map.k1.is_none());
+                self.map.k1 = Some(self.key);
+                self.map.v1 = Some(f());
+                self.map.v1.as_mut().unwrap()
+            }
+        }
     }
     pub fn or_insert(self, v: V) -> &'a mut V {
         self.or_insert_with(|| v)
     }
     pub fn and_modify<F: FnOnce(&mut V)>(self, f: F) -> Self {
-        if let Some(i) = self.map.find(&self.key) {
-            f(self.map.vals[i].as_mut().unwrap());
+        match self.map.slot(&self.key) {
+            0 => f(self.map.v0.as_mut().unwrap()),
+            1 => f(self.map.v1.as_mut().unwrap()),
+            _ => {}
         }
         self
     }
@@ -145,10 +146,29 @@ impl<'a, K, V> Iterator for Iter<'a, K, V> {
         while self.pos < CAP {
             let p = self.pos;
             self.pos += 1;
-            if let (Some(k), Some(v)) = (&self.map.keys[p], &self.map.vals[p]) {
+            let (k, v) = if p == 0 { (&self.map.k0, &self.map.v0) } else { (&self.map.k1, &self.map.v1) };
+            if let (Some(k), Some(v)) = (k, v) {
                 return Some((k, v));
             }
         }
         None
+    }
+}
+pub struct Keys<'a, K, V> {
+    it: Iter<'a, K, V>,
+}
+impl<'a, K, V> Iterator for Keys<'a, K, V> {
+    type Item = &'a K;
+    fn next(&mut self) -> Option<&'a K> {
+        self.it.next().map(|(k, _)| k)
+    }
+}
+impl<K: Copy + PartialEq, V> std::iter::FromIterator<(K, V)> for HashMap<K, V> {
+    fn from_iter<I: IntoIterator<Item = (K, V)>>(iter: I) -> Self {
+        let mut m = HashMap::new();
+        for (k, v) in iter {
+            m.insert(k, v);
+        }
+        m
     }
 }
